@@ -44,7 +44,7 @@ META = {
                   "mangled names) and the reading of the configuration documentation encoded in expected().",
 }
 PLAN = {
-    "quick": {"shards": 16, "examples": 1600, "shrink_sigs": 4, "shrink_calls": 150, "shrink_seconds": 20},
+    "quick": {"shards": 16, "examples": 1280, "shrink_sigs": 3, "shrink_calls": 120, "shrink_seconds": 15},
     "thorough": {"shards": 16, "examples": 40000, "timeout": 3000},
 }
 
@@ -59,6 +59,7 @@ RELAX = [
     "enum-method-not-collected",         # EnumType.__dir__ hides methods defined in an enum body
     "ignore_methods-not-applied-to-methods",
     "mangling-decided-by-name-shape",    # name-mangling detected by regex on the name, not from the defining class
+    "lambda-visibility-decided-on-placeholder-name",  # visibility of a bound lambda checked on "<lambda>", not on its name
 ]
 
 
@@ -162,6 +163,8 @@ def expected(uni: dict[tuple[str, str], dict[str, Any]], setting: str, ignored: 
             continue
         if kind in ("function", "method"):
             shape = e["name_vis"]
+            if flavor == "lambda" and "lambda-visibility-decided-on-placeholder-name" in relax:
+                shape = "public"
             if kind == "method" and "mangling-decided-by-name-shape" in relax and shape != "dunder":
                 shape = _shape_by_regex(e["runtime_name"])
                 if shape == "private" and setting != "ALL":
